@@ -51,6 +51,14 @@ def run(ctx):
                     vlib.report(ctx, sig, {"seed": seed, "steps": steps, "mismatch": mm, "cause": cause, "trace": str(tr)})
                 else:
                     vlib.log("trace disagreement outside C06 (see C10):", mm)
+            # natively, on every recorded step (the trace spec reports only the FIRST disagreement, which may be an image mismatch that
+            # belongs to C10): the head's UTXO root / set size must be the multiset / count of the scanned 'ut'+'cl' records
+            bad = [r for r in vlib.read_ndjson(tr) if r.get("op") in ("mine", "sethead") and not r.get("err") and (r.get("root_ok") is False or r.get("size_ok") is False)]
+            if bad:
+                cause = zc.spend_at_trim_depth(tr)
+                sig = {"kind": "commitment-mismatch", "cause": "spend-at-trim-depth"} if cause else {"kind": "header-commitment-differs-from-stored-state", "after": bad[0]["op"]}
+                vlib.report(ctx, sig, {"seed": seed, "steps": steps, "first": {k: bad[0].get(k) for k in ("op", "b", "p", "head", "root_ok", "size_ok", "chained")},
+                                       "events_affected": len(bad), "cause": cause, "trace": str(tr)})
             events += info["events"]; reexecs += info["reexecutions"]; fchecks += info["follower_checks"]
             if len(samples) < 3:
                 samples += zc.sample_events(tr, 2)
